@@ -184,6 +184,7 @@ func (s *Stream) close(status int32) error {
 
 	// 已关闭的流不能再被查找到：如果媒体中心映射的仍是本流则移除（不会误删后继者）
 	streams.CompareAndDelete(s.path, s)
+	retired.Delete(s)
 
 	// 关闭 hls
 	if s.tsMuxer != nil {
